@@ -364,3 +364,37 @@ def has_bound_var(t):
             stack.extend(e.children())
         # closed quantifiers are fine: their de-Bruijn variables are bound
     return False
+
+
+def canon_str(t, _memo=None):
+    """canonical string of a term: arguments of commutative operators (+, *, and, or, =, distinct) sorted,
+    nested + / * flattened - equal strings imply equal terms (used for hypothesis-free identity checks)"""
+    if _memo is None:
+        _memo = {}
+    i = t.get_id()
+    if i in _memo:
+        return _memo[i]
+    if z3.is_app(t):
+        k = t.decl().kind()
+        ch = list(t.children())
+        if k in (z3.Z3_OP_ADD, z3.Z3_OP_MUL):
+            flat = []
+            stack = ch[::-1]
+            while stack:
+                c = stack.pop()
+                if z3.is_app(c) and c.decl().kind() == k:
+                    stack.extend(list(c.children())[::-1])
+                else:
+                    flat.append(c)
+            parts = sorted(canon_str(c, _memo) for c in flat)
+            r = "(" + ("+" if k == z3.Z3_OP_ADD else "*") + " " + " ".join(parts) + ")"
+        elif k in (z3.Z3_OP_AND, z3.Z3_OP_OR, z3.Z3_OP_EQ, z3.Z3_OP_DISTINCT):
+            r = "(" + t.decl().name() + " " + " ".join(sorted(canon_str(c, _memo) for c in ch)) + ")"
+        elif not ch:
+            r = t.sexpr()
+        else:
+            r = "(" + t.decl().name() + " " + " ".join(canon_str(c, _memo) for c in ch) + ")"
+    else:
+        r = t.sexpr()
+    _memo[i] = r
+    return r
